@@ -175,8 +175,8 @@ func c07ParseBounds(c *Ctx, r *Report) {
 		fns = append(fns, f)
 	}
 	sort.Slice(fns, func(i, j int) bool { return fnDisplay(fns[i]) < fnDisplay(fns[j]) })
-	withStrings = true
-	defer func() { withStrings = false }()
+	withStrings, withAllSlices = true, true
+	defer func() { withStrings, withAllSlices = false, false }()
 	bp := newBoundsProver(c, e, scope)
 	if lc := theLexContract; lc != nil {
 		r.extra["lexer_contract_constructs"] = lc.sites
